@@ -24,7 +24,52 @@ NAME_LIKE = ("NAME", "NAME_REF", "TYPE_NAME", "LABEL")
 LOC = "crates/syntax/src/parser.rs"
 
 
+def binders_of_alternatives_are_one_variable(F, res, rule="N19"):
+    """N19 (= C06 R13): `A(x) | B(x) -> x` binds ONE variable x. The scope of the clause holds an entry per alternative and a use
+    resolves to the first of them (resolve_name_in_scope); the binder side must answer with the same Local for every one of the
+    binders, or the second `x` is a definition of its own that nothing refers to: references / highlight / rename started at the
+    first binder or at the use leave it alone (`A(fresh) | B(x) -> fresh`, a clause that no longer compiles), and started at the
+    second they edit nothing else. Structurally: the `pat_id` of the Local that `<ast::Pattern as ToDef>::to_def` builds is not the
+    raw answer of the source map (`pattern_for_node`) but passes through a function of the body that walks the binders of the
+    alternatives (Body::walk_binders) to pick the representative."""
+    td = None
+    for p_, f in F.fns.items():
+        if p_.startswith("<syntax::ast::Pattern as ide::def::semantics::ToDef>::to_def") and "{closure" not in p_ and f.blocks:
+            td = f
+    if td is None:
+        res.anchor_missing(rule, "<syntax::ast::Pattern as ide::def::semantics::ToDef>::to_def")
+        return
+    d = FL.Defs(td)
+    locs = [(b, s_) for b, i, s_ in td.stmts() if (s_.get("rv") or {}).get("k") == "agg" and str(s_["rv"].get("adt") or "").endswith("::Local")]
+    ok, how = False, "no Local built in to_def"
+    for b, s_ in locs:
+        names = s_["rv"].get("fields") or []
+        if "pat_id" not in names:
+            continue
+        o = d.origin_op(s_["rv"]["ops"][names.index("pat_id")], ("Try>::branch",))
+        base = o
+        for _ in range(4):
+            while base.get("k") == "field":
+                base = base["base"]
+            if base.get("k") == "call" and (callee_def(base["t"]) or callee(base["t"]) or "").endswith("Try::branch") and base["t"]["args"]:
+                base = d.origin_op(base["t"]["args"][0])
+            else:
+                break
+        src = (callee(base["t"]) or callee_def(base["t"]) or "") if base.get("k") == "call" else str(base.get("k"))
+        walks = False
+        if base.get("k") == "call" and src.startswith(("ide::", "<ide::")):
+            for q in F.with_helpers(src, depth=2):
+                g = F.fns.get(q)
+                if g is not None and g.blocks and any((callee(t) or "").endswith("Body::walk_binders") for _b, t in g.calls()):
+                    walks = True
+        ok = walks
+        how = "pat_id <- %s%s" % (FL.short(src), " (walks the binders of the alternatives)" if walks else ": the source map's own answer, one Local per alternative")
+    res.ob(rule, "alternatives/one-local-per-name", "the binders of one name in the alternatives of a clause pattern classify as one Local (the one a use resolves to)",
+           ok, where=td.loc(), how=how)
+
+
 def run(F, res, tier):
+    binders_of_alternatives_are_one_variable(F, res)
     from rules import c05 as _c05ns
     _c05ns.namespaces(F, res, rule7="N18", rule8="N18")   # an imported constructor stays a value: a type of the same name does not take its place (rename would miss the uses)
     from rules import c14 as _c14u
